@@ -57,6 +57,7 @@ sim::KConfig kernelConfigFrom(const plan::Plan& p, bool verbose);
 // emit the result to fd (child -> worker protocol) and _exit
 void emitResult(const RunResult& r, int fd);
 extern int g_resultFd;
+extern bool g_leakCheck;   // set by a harness after a complete orderly shutdown when the plan asks for a leak check (cfg lsan=1)
 void finishRun(RunResult* r);   // fills hash/steps from the kernel, emits, _exit(0)
 
 }  // namespace hz
